@@ -91,6 +91,8 @@ pub fn check(c: &Case, seams_open: bool) -> CheckResult {
     o.nontrivial = ones > 0 && zeros > 0;
     o.class(["cap:butt", "cap:round", "cap:square"][c.style.cap as usize % 3]);
     o.class(["join:miter", "join:round", "join:bevel"][c.style.join as usize % 3]);
+    // the lower end of the domain of miter limits: no corner is within a limit of 0, every join is the bevel
+    o.class_if(c.style.join == 0 && c.style.miter.0 == 0.0, "miter-join-with-a-limit-of-exactly-zero");
     o.class_if(curves, "curves");
     {
         let mut cont = false;
@@ -417,7 +419,7 @@ pub fn strategy() -> BoxedStrategy<Case> {
             let ext = w.max(h) as f32;
             let width = prop_oneof![6 => 0.3f32..12.0, 1 => Just(1.0f32), 1 => prop::sample::select(vec![0.0f32, -1.0, f32::NAN])];
             // (large limits: a miter within 1 degree of a reversal is hundreds of half-widths long and still required)
-            let miter = prop_oneof![4 => Just(10.0f32), 2 => Just(4.0f32), 4 => 0.0f32..12.0, 2 => Just(1.4142135f32), 2 => Just(2.0f32), 1 => prop::sample::select(vec![200.0f32, 400.0, 60.0]), 2 => prop::sample::select(vec![1.0f32, 1.1, 1.2, 1.3, 1.4, 1.42, 1.5])];
+            let miter = prop_oneof![4 => Just(10.0f32), 2 => Just(4.0f32), 2 => prop::sample::select(vec![0.0f32, -0.0, 0.0, 0.5]), 4 => 0.0f32..12.0, 2 => Just(1.4142135f32), 2 => Just(2.0f32), 1 => prop::sample::select(vec![200.0f32, 400.0, 60.0]), 2 => prop::sample::select(vec![1.0f32, 1.1, 1.2, 1.3, 1.4, 1.42, 1.5])];
             // zoom: the same picture in user units `zoom` times smaller under a CTM `zoom` times larger
             let zoom = prop_oneof![12 => Just(1.0f32), 1 => Just(4096.0f32), 1 => Just(65536.0f32), 1 => Just(1.0f32 / 64.0), 2 => Just(32.0f32), 1 => Just(1.0f32 / 4096.0)];
             // one transform in four also mirrors (negative determinant): the picture is flipped about the vertical
@@ -581,7 +583,7 @@ pub fn property(ctx: &Ctx) -> Property {
     let seams_open = ctx.excluded(SEAM_KEY);
     Property {
         id: "C04",
-        rule: "cases: 1-3 subpaths built by turtle steps (turning angles uniform, 0/45/90/135/180 degrees, within 1 degree of 0/180, and exact retraces to the previous point; segment lengths 0.25..14 px plus exact duplicate points), open or closed, or quadratic/cubic subpaths (curve class), widths 0.3..12 plus 0, -1 and NaN, all 3 caps x 3 joins, miter limits 0..12 incl. sqrt2, 2, 4, 10, and 60/200/400, transforms identity / translation / rotation x uniform scale 0.3-4 / anisotropic (condition <= 20, curves <= 4) / shear, optionally with user space zoomed (units 4096 or 65536 times smaller, or 64 times larger, under a correspondingly scaled CTM), white on transparent 24..40 px surfaces. part wide: polylines of 2-4 segments of 8..60 px through a vertex on the surface, device widths 30..110 px, turning angles mostly 0.2..6 degrees of either sign (also 0, general, near 180), open or closed, all caps/joins, identity or rotation x scale; same oracle (a join wedge of a shallow bend is only wider than the margin when the stroke is this wide). Oracle: union of convex pieces built from the statement (segment rectangles; round sector / bevel triangle / miter quadrilateral or bevel by the miter-limit test on the outer side of every interior and closing vertex; caps at both ends of open subpaths) in user space, exact membership through the inverse transform, union boundary sampled at 1/16 px; a pixel whose whole area is more than the margin (0.5 px polylines, 1 px curves) inside must be exactly 0xffffffff, more than the margin outside exactly 0; width <= 0 or NaN paints nothing. Non-trivial: >=1 must-paint and >=1 must-stay pixel; distinct by hash of the case.",
+        rule: "cases: 1-3 subpaths built by turtle steps (turning angles uniform, 0/45/90/135/180 degrees, within 1 degree of 0/180, and exact retraces to the previous point; segment lengths 0.25..14 px plus exact duplicate points), open or closed, or quadratic/cubic subpaths (curve class), widths 0.3..12 plus 0, -1 and NaN, all 3 caps x 3 joins, miter limits 0..12 incl. exactly 0 (and -0), 0.5, sqrt2, 2, 4, 10, and 60/200/400, transforms identity / translation / rotation x uniform scale 0.3-4 / anisotropic (condition <= 20, curves <= 4) / shear, optionally with user space zoomed (units 4096 or 65536 times smaller, or 64 times larger, under a correspondingly scaled CTM), white on transparent 24..40 px surfaces. part wide: polylines of 2-4 segments of 8..60 px through a vertex on the surface, device widths 30..110 px, turning angles mostly 0.2..6 degrees of either sign (also 0, general, near 180), open or closed, all caps/joins, identity or rotation x scale; same oracle (a join wedge of a shallow bend is only wider than the margin when the stroke is this wide). Oracle: union of convex pieces built from the statement (segment rectangles; round sector / bevel triangle / miter quadrilateral or bevel by the miter-limit test on the outer side of every interior and closing vertex; caps at both ends of open subpaths) in user space, exact membership through the inverse transform, union boundary sampled at 1/16 px; a pixel whose whole area is more than the margin (0.5 px polylines, 1 px curves) inside must be exactly 0xffffffff, more than the margin outside exactly 0; width <= 0 or NaN paints nothing. Non-trivial: >=1 must-paint and >=1 must-stay pixel; distinct by hash of the case.",
         assumptions: vec![
             "a band of margin + half a pixel diagonal + 1/32 px around the region boundary is not judged",
             "threshold decisions (miter limit within 1e-3, turning angle within 1e-3 of 0/180 degrees) are taken the smaller way for 'must paint' and the larger way for 'must stay'",
@@ -600,6 +602,7 @@ pub fn property(ctx: &Ctx) -> Property {
             ("region", "ctm-scale>=1000", 0.05),
             ("region", "evenodd-path-with-visible-join", 0.03),
             ("region", "near-reversal-under-a-miter-limit-of-60-or-more", 0.003),
+            ("region", "miter-join-with-a-limit-of-exactly-zero", 0.01),
             ("region", "exact-right-angle-with-miter-limit-between-1-and-sqrt2", 0.003),
         ],
         panic_is_violation: false,
